@@ -183,7 +183,7 @@ func (c *schemaCtx) properties(key, base, parentSchema string, fields []*Field) 
 		if f.Required || f.Primary {
 			c.add(key, p+".required", "true")
 		}
-		if f.Optional {
+		if f.Optional && f.Type.Kind != "array" && f.Type.Kind != "map" {
 			c.add(key, p+".explicitly_optional", "true")
 		}
 		if f.Desc != "" {
